@@ -15,6 +15,8 @@ def configs(tier):
                 mk('parmap', 1, 1, 4), mk('parmap', 1, 1, 5), mk('parmap', 1, 2, 5), mk('parmap', 1, 2, 6),
                 mk('parmap', 1, 1, 4, 'dill_mp'), mk('parmap', 1, 2, 5, 'dill_mp'),
                 mk('prefetch', 2, 2, 4), mk('parmap', 2, 2, 4), mk('prefetch', 2, 2, 3, 'dill_mp')]
+    complete += [dict(mk('parmap', 1, 1, 4), copy_first=True), dict(mk('parmap', 2, 2, 5), copy_first=True),
+                 dict(mk('prefetch', 1, 1, 4), copy_first=True), dict(mk('prefetch', 2, 2, 4), copy_first=True)]
     bounded = [mk('prefetch', 1, 2, 6), mk('prefetch', 2, 2, 5), mk('prefetch', 2, 2, 6),
                mk('parmap', 2, 2, 5), mk('parmap', 2, 2, 6), mk('prefetch', 2, 2, 5, 'mp')]
     if tier == 'thorough':
@@ -50,7 +52,7 @@ def run(tier):
     res.coverage['preemption_bound_completed'] = bound
     # the maxima actually reached must not grow with the dataset length
     reached = {}
-    for cfg, best in common.pmap(_maxima_task, [c for c in cfgs if c['backend'] == 't']):
+    for cfg, best in common.pmap(_maxima_task, [c for c in cfgs if c['backend'] == 't' and not c.get('copy_first')]):
         reached[(cfg['entry'], cfg['w'], cfg['b'], cfg['n'] - cfg['b'])] = best
     table = []
     for (entry, w, b, extra), best in sorted(reached.items()):
